@@ -187,9 +187,9 @@ REMOVABLE = [
     ("remove_unused_if_branch", "if false then%INSIDE% f()\nend"),
     ("remove_unused_while", "while false do%INSIDE% f()\nend"),
 ]
-GAPS_BEFORE = ["-- a\n\n\n-- b\n", "-- a\n\n-- b\n\n\n\n-- c\n", "--[[ a ]]\n\n\n--[[ b ]]\n", "-- a\n-- b\n\n\n", "",
+GAPS_BEFORE = ["-- a\n-- b\n\n-- c\n\n\n-- d\n", "-- a\n\n-- b\n-- c\n\n\n\n-- d\n-- e\n", "-- a\n\n\n-- b\n", "-- a\n\n-- b\n\n\n\n-- c\n", "--[[ a ]]\n\n\n--[[ b ]]\n", "-- a\n-- b\n\n\n", "",
                "--[[ a ]] --[[ a2 ]]\n\n\n\n-- b\n"]
-GAPS_AFTER = ["\n", " -- d\n", " -- d\n\n\n-- e\n", "\n\n\n-- e\n\n", " --[[ d ]]\n\n-- e\n-- f\n"]
+GAPS_AFTER = [" -- t\n", " -- t\n\n-- u\n\n\n-- v\n", "\n", " -- d\n", " -- d\n\n\n-- e\n", "\n\n\n-- e\n\n", " --[[ d ]]\n\n-- e\n-- f\n"]
 GAPS_INSIDE = [" ", " -- i\n\n\n -- j\n", "\n\n -- i\n", " --[[ i ]]\n\n\n"]
 # the recorded defect: a comment that spans lines followed by another comment (see known_findings.txt)
 GAPS_BEFORE_KNOWN = ["--[[ b\nb2\nb3\n]]\n-- c\n", "-- a\n\n--[[ b\n]]\n\n-- c\n"]
@@ -210,8 +210,64 @@ def removal_sources(rng, n, known=False):
         if rng.randrange(4) == 0:
             body = "do\n" + body + "M5()\nend\n"       # inside a nested block
         elif rng.randrange(4) == 0:
-            body = body + "-- x\n\n\n-- y\n" + REMOVABLE[(i + 3) % 2][1].replace("unused", "unused2") + "\n"   # two in a row
+            body = body + "-- x\n\n\n-- y\n" + REMOVABLE[(i + 3) % 2][1].replace("unused", "unused2").replace("%INSIDE%", " ") + "\n"   # two in a row
         out.append((rule, head + body + tail))
+    return out
+
+
+RECEIVERS = [
+    ("assign name", "x = %M"), ("assign field", "x.y = %M"), ("assign nested field", "x.y.z = %M"),
+    ("assign index.field", "x[1].y = %M"), ("assign index", "x[k] = %M"), ("assign call.field", "f().y = %M"),
+    ("assign method-call.field", "a:m().y = %M"), ("assign paren.field", ";(t).k = %M"),
+    ("assign several", "x.y, z[1] = %M, %M"), ("assign field, value below", "x.y.z =\n  %M"),
+    ("assign string-call.field", "f'%S'.y = %M"),
+    ("compound field", "x.y += %M"), ("compound index", "x[1] ..= %M"),
+    ("call name", "f(%M)"), ("call field", "a.b(%M)"), ("call method", "a:m(%M)"), ("call nested method", "a.b.c:m(%M)"),
+    ("call call", "f()(%M)"), ("call paren", ";(f)(%M)"), ("call index", "a[1](%M)"), ("call table", "f{%M}"),
+    ("call string", "a.b'%S'"),
+    ("local", "local v = %M"), ("local several", "local v, w = %M, %M"), ("local function", "local function g() return %M end"),
+    ("function", "function h() return %M end"), ("function field", "function a.b.c() return %M end"),
+    ("function method", "function a:m() return %M end"),
+    ("if", "if %M then f() end"), ("while", "while %M do f() end"), ("repeat", "repeat f() until %M"),
+    ("numeric for", "for i = %M, 2 do f() end"), ("generic for", "for k, q in %M do f() end"), ("do", "do f(%M) end"),
+    ("type", "type T = typeof(%M)"), ("export type", "export type U = typeof(%M)"),
+]
+LAST_RECEIVERS = [("return value", "return %M", "function w()\n%B\nend"), ("return", "return", "function w()\n%B\nend"),
+                  ("return call", "return f(%M).x", "do\n%B\nend"),
+                  ("break", "break", "while %M do\n%B\nend"), ("continue", "continue", "for i = 1, %M do\n%B\nend")]
+REMOVED_WITH_COMMENT = [("remove_unused_variable", "-- c1\nlocal unused = 1 -- c2"),
+                        ("remove_empty_do", "-- c1\ndo end -- c2"),
+                        ("remove_unused_variable", "local unused = 1 -- c2"),
+                        ("remove_types", "-- c1\ntype Unused = number -- c2")]
+
+
+def fill_markers(text, counter):
+    while "%M" in text or "%S" in text:
+        i = min(k for k in (text.find("%M"), text.find("%S")) if k >= 0)
+        counter[0] += 1
+        text = text[:i] + "M%d" % counter[0] + text[i + 2:]
+    return text
+
+
+def receiver_sources():
+    """[(label, remover rule, source with a removed statement in front of the receiver, source with the
+    receiver as first statement)]"""
+    out = []
+    for ri, (label, stmt) in enumerate(RECEIVERS):
+        rule, removed = REMOVED_WITH_COMMENT[ri % len(REMOVED_WITH_COMMENT)]
+        n = [0]
+        after = fill_markers("print(%M)\n" + removed + "\n" + stmt + "\n%M(v, w, g, h)\n", n)
+        n = [0]
+        first = fill_markers(stmt.lstrip(";") + "\n\n%M(v, w, g, h)\nprint(%M,\n  %M)\n", n)
+        out.append((label, rule, after, first))
+    for ri, (label, stmt, wrap) in enumerate(LAST_RECEIVERS):
+        rule, removed = REMOVED_WITH_COMMENT[ri % 2]
+        n = [0]
+        body = " f(%M)\n " + removed.replace("\n", "\n ") + "\n " + stmt
+        after = fill_markers("print(%M)\n" + wrap.replace("%B", body) + "\n%M()\n", n)
+        n = [0]
+        first = fill_markers(wrap.replace("%B", " " + stmt) + "\n%M()\n", n) if label.startswith("return") and "function" not in wrap else None
+        out.append((label, rule, after, first))
     return out
 
 
@@ -320,12 +376,13 @@ WITNESS_JOBS = [
     ({"rules": ["remove_unused_if_branch"]}, "if a then\n f(1)\nelseif true then\n M1()\nelse\n M2()\nend\nM3()\n"),
     ({"rules": [{"rule": "append_text_comment", "text": "x", "location": "end"}]}, "local a = M1;\n"),
     ({"rules": ["remove_unused_variable"]}, "--[[ b\nb2\nb3\n]]\n-- c\nlocal unused = 1\nprint(M9)\n"),
+    ({"rules": ["remove_unused_if_branch"]}, "if nil then\n M1()\nelseif M2 then M3() else M4() end\nM5()\n"),
     ({"rules": ["remove_spaces", "remove_compound_assignment"]}, "print(M1)\n-- c\nt[g()] *= M2\nM3()\n"),
     # the regressions the coordinator seeded (must stay on their lines on the unchanged tree)
     ({"rules": ["remove_compound_assignment"]}, "stats.totals.label -- c\n  ..= 'M3'\nprint(M4)\n"),
     ({"rules": ["remove_spaces", "remove_compound_assignment"]}, "a.b.c -- c\n+= M3\nM4()\n"),
     ({"rules": ["remove_compound_assignment"]}, "f().x -- c\n+= M1\nM2()\n"),
-    ({"rules": ["remove_compound_assignment"]}, ";(t).k -- c\n*= M1\nM2()\n"),
+    ({"rules": ["remove_compound_assignment"]}, "M0();(t).k -- c\n*= M1\nM2()\n"),
     ({"rules": ["remove_compound_assignment"]}, "a -- c\n.b -- d\n.c += M1\nM2()\n"),
     ({"rules": ["remove_unused_variable"]}, "-- a\n\n\n-- b\nlocal unused = 1\nprint(M9)\nM10()\n"),
     ({"rules": ["remove_empty_do"]}, "-- a\n\n\n-- b\ndo end\nprint(M9)\n"),
@@ -447,6 +504,17 @@ def configs(rng, n_default, n_neutral):
 
 
 APPEND_TEXTS = ["header", "two\nlines", "a\nb\nc\n", "]]\n]=]", "x"]
+# one line, one line + line break (typical of a `file:` text), line break + one line, two lines (+ line break), CRLF
+APPEND_START_TEXTS = ["header", "header\n", "\nheader", "two\nlines", "two\nlines\n", "header\r\n", "two\r\nlines",
+                      "two\r\nlines\r\n", "\n", "[[ header"]
+
+
+def start_pipelines(text):
+    a = {"rule": "append_text_comment", "text": text}
+    keep = [r for r in DEFAULT_RULES if r != "remove_comments"]
+    return [("A", [a]), ("spaces,A", ["remove_spaces", a]), ("A,spaces", [a, "remove_spaces"]),
+            ("defaults,A", list(DEFAULT_RULES) + [a]), ("A,defaults-keeping-comments", [a] + keep),
+            ("A,defaults", [a] + list(DEFAULT_RULES))]
 
 
 def run(ctx):
@@ -476,6 +544,11 @@ def run(ctx):
             jobs.append(("append-start", {"rules": [{"rule": "append_text_comment", "text": t}]}, s, t))
             jobs.append(("append-start+default", {"rules": list(DEFAULT_RULES) + [{"rule": "append_text_comment", "text": t}]}, s, t))
             jobs.append(("append-end", {"rules": [{"rule": "append_text_comment", "text": t, "location": "end"}]}, s, None))
+        for ti, t in enumerate(APPEND_START_TEXTS):
+            for pi, (label, rules) in enumerate(start_pipelines(t)):
+                if quick and (si + ti + pi) % 8:
+                    continue
+                jobs.append(("append-start: text shapes x remove_spaces placement", {"rules": rules}, s, t))
     for c, s in WITNESS_JOBS:
         jobs.append(("witness", c, s, None))
     rca = "remove_compound_assignment"
@@ -494,6 +567,16 @@ def run(ctx):
             if quick and pi >= 2 and (si + pi) % 2:
                 continue
             jobs.append(("targeted: removed statement, comments lines apart", {"rules": rules}, s, None))
+    for ri, (label, rule, after, first) in enumerate(receiver_sources()):
+        kind = "targeted: statement kind receiving the comments of a removed statement"
+        jobs.append((kind, {"rules": [rule]}, after, None))
+        jobs.append((kind, {"rules": ["remove_spaces", rule]}, after, None))
+        if first is not None:
+            kind = "targeted: statement kind receiving the comment appended at start"
+            t = ["hdr", "two\nlines", "hdr\n"][ri % 3]
+            a = {"rule": "append_text_comment", "text": t}
+            for rules in ([a], ["remove_spaces", a], [a, "remove_spaces"]):
+                jobs.append((kind, {"rules": rules}, first, t))
     rows = [{"id": i, "config": json.dumps(j[1]), "src": j[2], "trace": True} for i, j in enumerate(jobs)]
     res = _run(rows, crate="dl-c04")
 
@@ -518,21 +601,38 @@ def run(ctx):
             problems.append((kind, c, s, out, "output does not lex: %s" % ex))
             continue
         shift = 0
+        bad = None
         if shift_text is not None:
-            comment_lines = shift_text.count("\n") + 1 + (2 if "\n" in shift_text else 0)
-            shift = comment_lines
+            # every marker must move by one common amount, the number of lines the comment occupies (read from
+            # the output: the comment at byte 0, when the pipeline kept it)
+            first = [c for c in L.lex(out.encode("utf-8"))[1] if c.kind == "comment"][:1]
+            occupied = first[0].text.count(b"\n") + 1 if first and first[0].start == 0 else None
+            moves = {}
+            for m, lines in om.items():
+                orig = src_markers[s].get(m)
+                if orig and len(orig) == 1 and len(lines) == 1:
+                    moves[m] = lines[0] - orig[0]
+            values = sorted(set(moves.values()))
+            if len(values) > 1:
+                lo = min(moves, key=lambda m: moves[m])
+                hi = max(moves, key=lambda m: moves[m])
+                bad = "append at start moves the markers by different amounts: %s by %d, %s by %d" % (lo, moves[lo], hi, moves[hi])
+            elif values and occupied is not None and values[0] != occupied:
+                bad = "append at start moves the markers by %d lines, the comment occupies %d" % (values[0], occupied)
+            shift = values[0] if values else 0
         survivors = 0
         lines_seen = set()
-        bad = None
         for m, lines in om.items():
             orig = src_markers[s].get(m)
             if not orig:
                 continue
             survivors += 1
             lines_seen.add(orig[0])
+            if shift_text is not None:
+                continue
             # every original occurrence must still be on its line (a rule may add copies elsewhere,
             # e.g. remove_method_call repeats the receiver as first argument)
-            here = set(ln - shift for ln in lines)
+            here = set(lines)
             missing = [ln for ln in set(orig) if ln not in here]
             if missing and len(lines) <= len(orig):
                 bad = "marker %s is on line %d of the input and on line %s of the output (expected shift %d)" % (
@@ -541,7 +641,8 @@ def run(ctx):
             nontriv[kind] = nontriv.get(kind, 0) + 1
         if bad:
             problems.append((kind, c, s, out, bad))
-        if len(s.encode("utf-8")) < 2500:
+        # quick tier: every targeted / witness job is replayed through the model, every other random-program job
+        if len(s.encode("utf-8")) < 2500 and (not quick or kind.startswith(("targeted", "witness")) or i % 2 == 0):
             cases.append((i, coq_case(s, out, r["trace"])))
 
     # model = code on the recorded requests, lines_fit and placements evaluated in Coq
@@ -707,20 +808,21 @@ def still_fails(c, by_model=False):
 
 KEY_END_SEMI = "append-end-before-semicolon:local_a=1;"
 KEY_METHOD_SELF = "method-definition-self-param:multi-line-parameters"
+KEY_IF_FALSE = "unused-if-branch-constant-first-branch:then-token-trivia"
 KEY_ELSEIF_TRUE = "unused-if-branch-constant-elseif:else-token-line"
 
 CONSTANT_WORDS = {b"true", b"false", b"nil", b"not", b"and", b"or"}
 
 
-def has_constant_elseif(src):
-    """an `elseif <condition> then` whose condition contains no name (so it may be constant)"""
+def has_constant_elseif(src, keyword=b"elseif"):
+    """an `elseif <condition> then` (or `if`, by `keyword`) whose condition contains no name (so it may be constant)"""
     try:
         toks, _ = L.lex(src.encode("utf-8"))
     except L.LexError:
         return False
     i = 0
     while i < len(toks):
-        if toks[i].text == b"elseif" and toks[i].kind == "name":
+        if toks[i].text == keyword and toks[i].kind == "name":
             j = i + 1
             constant = True
             depth = 0
@@ -760,6 +862,9 @@ def classify_problem(c, s, out):
             return c18.KEY_DOTNUM
     if "remove_unused_if_branch" in names and has_constant_elseif(s):
         return KEY_ELSEIF_TRUE
+    if "remove_unused_if_branch" in names and has_constant_elseif(s, b"if") and not (
+            "remove_spaces" in names and names.index("remove_spaces") < names.index("remove_unused_if_branch")):
+        return KEY_IF_FALSE
     removers = [i for i, n in enumerate(names) if n in REMOVERS]
     if removers and not ("remove_comments" in names and names.index("remove_comments") < removers[0]):
         if multiline_comment_then_comment(s):
